@@ -48,6 +48,12 @@ pub struct Core {
     /// unbounded storm in zero virtual time); beyond it everything is dropped and `capped` is set.
     pub max_datagrams: Option<u64>,
     pub capped: bool,
+    /// Datagrams scheduled for later delivery and not yet delivered. Like a real network's buffers the bound
+    /// is finite: beyond `max_in_flight` new datagrams are dropped (a request storm would otherwise grow the
+    /// harness without bound in very little virtual time).
+    pub in_flight: u64,
+    pub max_in_flight: u64,
+    pub overflow_dropped: u64,
 }
 
 #[derive(Clone)]
@@ -68,6 +74,9 @@ impl NetHandle {
             dead: Default::default(),
             max_datagrams: None,
             capped: false,
+            in_flight: 0,
+            max_in_flight: 400_000,
+            overflow_dropped: 0,
         })))
     }
 
@@ -129,11 +138,17 @@ impl NetHandle {
                 c.dropped += 1;
                 return;
             }
+            if c.in_flight > c.max_in_flight {
+                c.overflow_dropped += 1;
+                c.dropped += 1;
+                return;
+            }
             delays = (c.policy)(&d);
             if delays.is_empty() {
                 c.dropped += 1;
                 return;
             }
+            c.in_flight += delays.iter().filter(|x| !x.is_zero()).count() as u64;
         }
         for delay in delays {
             let me = self.clone();
@@ -143,6 +158,10 @@ impl NetHandle {
             } else {
                 tokio::spawn(async move {
                     tokio::time::sleep(delay).await;
+                    {
+                        let mut c = me.0.lock().unwrap();
+                        c.in_flight = c.in_flight.saturating_sub(1);
+                    }
                     me.deliver(d);
                 });
             }
@@ -169,6 +188,10 @@ impl NetHandle {
 
     pub fn kill(&self, v: usize) {
         self.0.lock().unwrap().dead.insert(v);
+    }
+
+    pub fn overflow_dropped(&self) -> u64 {
+        self.0.lock().unwrap().overflow_dropped
     }
 
     pub fn stats(&self) -> (u64, u64, u64, usize) {
